@@ -320,7 +320,16 @@ func (p *TransportParameters) readNumericTransportParameter(b []byte, paramID tr
 			return fmt.Errorf("initial_max_streams_uni too large: %d (maximum %d)", p.MaxUniStreamNum, protocol.MaxStreamCount)
 		}
 	case maxIdleTimeoutParameterID:
-		p.MaxIdleTimeout = max(protocol.MinRemoteIdleTimeout, time.Duration(val)*time.Millisecond)
+		switch {
+		case val == 0:
+			// A value of 0 means the same as an absent parameter: the idle timeout is disabled (RFC 9000, section 18.2).
+			p.MaxIdleTimeout = 0
+		case val > math.MaxInt64/uint64(time.Millisecond):
+			// prevent overflows if the peer sends a very large value: use the largest encode-able value
+			p.MaxIdleTimeout = time.Duration(math.MaxInt64/int64(time.Millisecond)) * time.Millisecond
+		default:
+			p.MaxIdleTimeout = max(protocol.MinRemoteIdleTimeout, time.Duration(val)*time.Millisecond)
+		}
 	case maxUDPPayloadSizeParameterID:
 		if val < 1200 {
 			return fmt.Errorf("invalid value for max_udp_payload_size: %d (minimum 1200)", val)
